@@ -108,4 +108,9 @@ def validateVersion (build : String) (given : Option String) : Errs :=
       | none => []
       | some msg => ["version: current: v" ++ build ++ ", given: " ++ g ++ ": " ++ msg]
 
+/-- `main.buildVersion`: the linker-provided version loses one leading `v` iff it starts with `v` and is a
+semantic version (x/mod/semver's `IsValid`); anything else is handed on unchanged -/
+def normalizeBuild (linker : String) : String :=
+  if linker.toList.head? = some 'v' ∧ isValid linker then String.ofList (linker.toList.drop 1) else linker
+
 end GM.Semver
